@@ -100,6 +100,7 @@ pub fn run(tier: Tier) -> i32 {
                     return;
                 }
             };
+            rep.outcome(hash_f64s(&t.1.iter().flatten().cloned().collect::<Vec<f64>>()));
             match &lpf0 {
                 None => lpf0 = Some(t.2.clone()),
                 Some(l) => {
